@@ -158,6 +158,69 @@ def percpu_instances_workload(res, rng):
             ld.close()
 
 
+def unsupported_use_workload(res, rng):
+    """uses the library does not support today but must never turn into
+    short buffers: a hash-map variable wider than 8 bytes (read / written
+    from Python, defaults written at load), and a Python-side assignment to
+    a per-CPU variable of a loaded program"""
+    from ebpfcat.hashmap import HashMap
+    with kern.session() as sess:
+        h = HashMap()
+        wf = rng.choice(["4I", "2Q", "16B", "3I"])
+        ns = {"license": "GPL", "hm": h, "hv_n": h.globalVar("I"),
+              "hv_wide": h.globalVar(wf)}
+
+        def program(self):
+            self.r0 = 2
+            self.exit()
+        ns["program"] = program
+        with sysmon.Monitor(sess) as mon:
+            try:
+                e = type("VfWide", (XDP,), ns)()
+                ld = prog.Loaded(e, sess)
+                ld.load()
+                for op in (lambda: e.hv_wide, lambda: e.hv_n,
+                           lambda: setattr(e, "hv_n", 7),
+                           lambda: setattr(e, "hv_wide", 5)):
+                    try:
+                        op()
+                    except sysmon.Refused:
+                        break
+                    except Exception:
+                        res.count("unsupported_uses_refused_by_the_library")
+            except sysmon.Refused:
+                pass
+            except Exception:
+                res.count("unsupported_uses_refused_by_the_library")
+        res.count("wide_hash_variable_workloads")
+        absorb(mon, res, "wide-hash-variable")
+    with kern.session() as sess:
+        pm = PerCPUArrayMap()
+        ns = {"license": "GPL", "pm": pm,
+              "cnt": pm.globalVar(rng.choice("IQHB"))}
+
+        def program2(self):
+            self.cnt += 1
+            self.r0 = 2
+            self.exit()
+        ns["program"] = program2
+        with sysmon.Monitor(sess) as mon:
+            e = type("VfPCW", (XDP,), ns)()
+            ld = prog.Loaded(e, sess)
+            ld.load()
+            ld.run_k(bytes(64))
+            try:
+                e.cnt = 0          # "reset the counter"
+                res.count("percpu_python_writes_accepted")
+            except sysmon.Refused:
+                pass
+            except Exception:
+                res.count("unsupported_uses_refused_by_the_library")
+        res.count("percpu_python_write_workloads")
+        absorb(mon, res, "percpu-python-write")
+        ld.close()
+
+
 def closed_program_workload(res, rng):
     """a program with a per-CPU map is loaded, run and closed (as XDP.run()
     and register_sync_group do right after attaching); another program with
@@ -317,6 +380,7 @@ def run_shard(params):
     misuse_workload(res, rng)
     for _ in range(3):
         closed_program_workload(res, rng)
+        unsupported_use_workload(res, rng)
     res.count("workload_model_mismatches (C09's business)",
               len(scratch.violations))
     return res
